@@ -61,6 +61,8 @@ def gen_inputs(key, r):
         return dict(n=int(r.randint(4, 10)), seed=Scripted((), fallback_seed=int(r.randint(1 << 30)), max_draws=2000))
     if base == 'distance_bin':
         return dict(G=_dir(r, n, p=float(r.choice([.2, .4, .7])))) if r.random_sample() < .5 else dict(G=_und(r, n, p=float(r.choice([.2, .5]))))
+    if base == 'efficiency_bin':
+        return dict(G=_dir(r, n, p=float(r.choice([.2, .4, .7]))) if r.random_sample() < .5 else _und(r, n, p=float(r.choice([.2, .5]))), local=False)
     if base == 'teachers_round':
         return dict(x=float(r.choice([-2.5, -1.5, -.5, -.2, 0., .2, .5, 1.5, 2.5, 3.49999, -3.50001, 7.])))
     if base in ('kcore_bu', 'score_wu'):
